@@ -190,7 +190,8 @@ def render_c06(case, c, seed):
     scs.append("{ " + "\n      ".join(probes) + " }")
     descs[n] = {"own": {}, "deps": {}, "expect": "ok", "avail": {a: c["avail"][a]["expect"] for a in apps}, "pair": "", "allocpair": "",
                 "answer": "", "kind": "avail"}
-    src = (sup_text + trait_text + "\n".join(decls) + "\n" + "\n".join(impls) + "\npub fn run() {\n    " + "\n    ".join(scs) + "\n}\n")
+    imports = "#[allow(unused_imports)] use ::core::borrow::Borrow;\n#[allow(unused_imports)] use ::core::convert::AsRef;\n"
+    src = (imports + sup_text + trait_text + "\n".join(decls) + "\n" + "\n".join(impls) + "\npub fn run() {\n    " + "\n    ".join(scs) + "\n}\n")
     return src, descs
 
 
